@@ -9,6 +9,7 @@ import BezierVerif.Model.Extremes
 import BezierVerif.Model.Nodelist
 import BezierVerif.Model.Sample
 import BezierVerif.Model.Fit
+import BezierVerif.Model.Clip
 import BezierVerif.Gen.Box
 
 namespace ModelDriver
@@ -160,6 +161,33 @@ partial def parseTape : List String → Option (List (Fit.CallData QP ℚ))
 
 def showBez (b : List QP) : String := "C " ++ showRats (b.flatMap fun p => [p.1, p.2])
 
+/-- LUT entries: `sx sy ex ey` followed by one segment -/
+partial def parseLut : List String → Option (List ((QP × QP) × Seg ℚ))
+  | [] => some []
+  | a :: b :: c :: d :: rest => do
+      let a ← parseRat a; let b ← parseRat b; let c ← parseRat c; let d ← parseRat d
+      match rest with
+      | "L" :: _ =>
+        let (segs, r) ← parseSegs (rest.take 5)
+        let seg ← segs.head?
+        if r ≠ [] then none else
+        let more ← parseLut (rest.drop 5)
+        some ((((a, b), (c, d)), seg) :: more)
+      | "Q" :: _ =>
+        let (segs, r) ← parseSegs (rest.take 7)
+        let seg ← segs.head?
+        if r ≠ [] then none else
+        let more ← parseLut (rest.drop 7)
+        some ((((a, b), (c, d)), seg) :: more)
+      | "C" :: _ =>
+        let (segs, r) ← parseSegs (rest.take 9)
+        let seg ← segs.head?
+        if r ≠ [] then none else
+        let more ← parseLut (rest.drop 9)
+        some ((((a, b), (c, d)), seg) :: more)
+      | _ => none
+  | _ => none
+
 def handle (name : String) (args : List String) : String :=
   match name with
   | "polygon.signedArea" =>
@@ -287,6 +315,22 @@ def handle (name : String) (args : List String) : String :=
           match Fit.fit rb 200 pts false false budget tape with
           | some (out, left) => "ok " ++ toString left.length ++ " " ++ " ".intercalate (out.map showBez)
           | none => "none"
+        | _, _ => "bad-args"
+      | _, _ => "bad-args"
+    | _ => "bad-args"
+  | "clip.recon" =>
+    -- clip.recon <flat 0/1> <fixed|pinned> <prec> <n> x y ... | lut entries (later entries override earlier)
+    match args with
+    | flat :: mode :: prec :: n :: rest =>
+      match parseRat prec, n.toNat? with
+      | some prec, some n =>
+        match ((rest.take (2 * n)).mapM parseRat) >>= parsePairs2 ∘ (fun l => l.map showRat), parseLut ((rest.drop (2 * n)).drop 1) with
+        | some poly, some lutl =>
+          let lut (k : QP × QP) : Option (Seg ℚ) := (lutl.reverse.find? (fun e => e.1 == k)).map (·.2)
+          let line (s e : QP) : Seg ℚ := Seg.line ⟨s.1 / prec, s.2 / prec⟩ ⟨e.1 / prec, e.2 / prec⟩
+          let out := if mode == "pinned" then Clip.reconPinned lut line (flat == "1") poly
+                     else Clip.recon lut line (flat == "1") poly
+          "ok " ++ showSegs out
         | _, _ => "bad-args"
       | _, _ => "bad-args"
     | _ => "bad-args"
